@@ -495,11 +495,10 @@ def valueAddressed (c : Nat) : Json → Bool
   | .obj m => keyIs c (idOf m)
   | _ => false
 
-/-- the frame carries a value addressed to call `c` (wherever a decoder would find it) -/
+/-- the frame is a line holding exactly one value, addressed to call `c` (the only frames a line reader hands on; a value
+    spread over several lines or sharing its line is not a frame for it, whatever id it carries) -/
 def stdioAddressed (c : Nat) : Frame → Bool
   | .value v => valueAddressed c v
-  | .spread v => valueAddressed c v
-  | .packed vs => vs.any (valueAddressed c)
   | _ => false
 
 /-- the line names the `endpoint` event type -/
